@@ -117,6 +117,12 @@ func (l *ltBroadcast) addLtBlock(ltBlock *types.LightBlock, receiveFrom, publish
 	block := &types.Block{}
 	block.SetHeader(ltBlock.GetHeader())
 	txCount := ltBlock.GetHeader().GetTxCount()
+	// 交易数量至少为1(挖矿交易), 且每笔交易都有对应的短哈希, 否则为无效轻区块直接丢弃,
+	// 避免按对端声明的数量申请任意大小的内存
+	if txCount < 1 || txCount > int64(len(ltBlock.GetSTxHashes())) {
+		log.Error("addLtBlock", "invalid txCount", txCount, "sTxHashes", len(ltBlock.GetSTxHashes()))
+		return
+	}
 	block.Txs = make([]*types.Transaction, txCount)
 	//add miner tx
 	block.Txs[0] = ltBlock.MinerTx
